@@ -1,9 +1,12 @@
 (** * C11 - Guaranteed tickets are honoured, and only with the holder's own tickets.
     Proved: the per-participant step of the distribution (v2 and the repaired v1 family), for every
-    state, base outcome and operation data; nothing is ever un-marked.  The lift to the whole loop
-    (every listed participant is processed exactly once) and order independence are covered by the
-    correspondence check and the twin runs only - see DESIGN.md. *)
-From LP Require Import Proofs.Tactics Proofs.Shuffle Proofs.Frames Proofs.Guaranteed Proofs.Examples.
+    state, base outcome and operation data; nothing is ever un-marked; the lift to the whole step:
+    when [distributeGuaranteedTickets] (gt1 mig lgt gt2) or [secondarySelectionStep] (ngt) completes
+    - in one call or after any number of interrupted calls by anybody - every listed holder has at
+    least what it is owed among the tickets of its own range, whatever the order in which the
+    unordered set yields the holders, and the first phase marks only tickets of holders' ranges. *)
+From LP Require Import Proofs.Tactics Proofs.Loop Proofs.Resume Proofs.Shuffle Proofs.Frames Proofs.Guaranteed
+  Proofs.Resume3 Proofs.GuaranteedLoop Proofs.Examples.
 Open Scope N_scope.
 
 (** v2: after processing participant [u] (range [f..la] holding at least its confirmed tickets) it
@@ -56,13 +59,77 @@ Theorem C11_never_unmarks : forall (v2 : bool) s o u (s' : state) (o' : gtop),
   forall t, status s t = true -> status s' t = true.
 Proof. exact gt_user_step_status_mono. Qed.
 
+(** the first phase of the step, completed: all holders honoured (the amount owed is computed from
+    the state the step starts in), winners only added, every newly marked ticket lies in the range
+    of a listed holder *)
+Theorem C11_phase1 : forall v2 s0 b o s' o' n' b',
+  NoDup (gt_users s0) -> sized v2 s0 ->
+  run_while b (select_gt_body v2) (s0, o, N.of_nat (length (gt_users s0))) = Ok (s', o', n', true, b') ->
+  (forall u, In u (gt_users s0) -> owed v2 s0 u <= own_winning s0 s' u) /\
+  (forall t, status s0 t = true -> status s' t = true) /\
+  (forall t, status s' t = true -> status s0 t = true \/
+     exists u f la, In u (gt_users s0) /\ range s0 u = Some (f, la) /\ In t (range_ids f la)).
+Proof. exact select_gt_loop_all_honoured. Qed.
+
+(** the endpoint (gt1 mig lgt: [v2 = false], gt2: [v2 = true]), however it is interrupted *)
+Theorem C11_distribute : forall (H : list N -> list N) v2 l w wk e b w',
+  op (st w) = OpNone -> NoDup (gt_users (st w)) -> sized v2 (st w) ->
+  after_interrupted (distribute_guaranteed_tickets H v2) l w = Some wk ->
+  distribute_guaranteed_tickets H v2 e b wk = Ok (w', 0) ->
+  (forall u, In u (gt_users (st w)) -> owed v2 (st w) u <= own_winning (st w) (st w') u) /\
+  (forall t, status (st w) t = true -> status (st w') t = true).
+Proof. exact distribute_honours_interrupted. Qed.
+
+(** the combined step of ngt *)
+Theorem C11_secondary : forall (H : list N -> list N) l w wk e b w',
+  op (st w) = OpNone -> NoDup (gt_users (st w)) -> nft_disjoint w ->
+  after_interrupted (secondary_selection_step H) l w = Some wk ->
+  secondary_selection_step H e b wk = Ok (w', 0) ->
+  (forall u, In u (gt_users (st w)) -> owed false (st w) u <= own_winning (st w) (st w') u) /\
+  (forall t, status (st w) t = true -> status (st w') t = true).
+Proof. exact secondary_honours_interrupted. Qed.
+
 Example C11_nonvacuous :
   qualified_v2 [(1, 2); (2, 5)] 3 = 1 /\ qualified_v2 [(1, 2); (2, 5)] 5 = 3 /\
   calc_v2 [(1, 2); (2, 5)] 2 = (1, 2) /\ calc_v2 [(3, 3)] 3 = (3, 0).
+Proof. vm_compute. repeat split. Qed.
+
+(** Non-vacuity of the step theorems: a gt2 sale (3 winners, holders 2 and 3 with one guarantee each,
+    participant 4 without), base selection done; holder 3 wins nothing in the base lottery; the
+    distribution is interrupted after one iteration (resumed by somebody else) and completes:
+    the hypotheses hold and holder 3 ends with winners of its own. *)
+Definition gt2_0 : world :=
+  match deploy Gt2 (mkenv 1 0 0 []) 1 100 0 1000 3 10 20 30 x0 with
+  | Ok s => world0 s
+  | Err _ => world0 state0
+  end.
+Definition gt2_selected : world :=
+  run_sha Gt2 gt2_0
+    [ (mkenv 1 1 0 [], 100%nat, [], CAddTicketsV2 [(2, 3, [(1, 2)]); (3, 3, [(1, 1)]); (4, 4, [])]);
+      (mkenv 1 2 0 [(1, 0, 300)], 100%nat, [], CDeposit);
+      (mkenv 2 10 0 [(0, 0, 3000)], 100%nat, [], CConfirm 3);
+      (mkenv 3 11 0 [(0, 0, 2000)], 100%nat, [], CConfirm 2);
+      (mkenv 4 11 0 [(0, 0, 4000)], 100%nat, [], CConfirm 4);
+      (mkenv 1 20 0 [], 100%nat, [], CFilter);
+      (mkenv 1 21 0 [], 100%nat, [seedA], CSelect) ].
+Definition gt2_half := step_sha Gt2 gt2_selected (mkenv 3 22 0 [], 1%nat, [seedA], CExtra).
+Definition gt2_done := step_sha Gt2 gt2_half (mkenv 4 23 0 [], 100%nat, [], CExtra).
+
+Example C11_nonvacuous_step :
+  let s0 := st gt2_selected in
+  op s0 = OpNone /\ gt_users s0 = [2; 3] /\
+  map (owed true s0) (gt_users s0) = [1; 1] /\ map (own_winning s0 s0) (gt_users s0) = [1; 0] /\
+  fl_additional (st gt2_half) = false /\ fl_additional (st gt2_done) = true /\
+  map (own_winning s0 (st gt2_done)) (gt_users s0) = [1; 2] /\
+  nr_winning s0 = 1 /\ nr_winning (st gt2_done) = 3.
 Proof. vm_compute. repeat split. Qed.
 
 Print Assumptions C11_v2_step.
 Print Assumptions C11_v1_step.
 Print Assumptions C11_topup.
 Print Assumptions C11_never_unmarks.
+Print Assumptions C11_phase1.
+Print Assumptions C11_distribute.
+Print Assumptions C11_secondary.
 Print Assumptions C11_nonvacuous.
+Print Assumptions C11_nonvacuous_step.
